@@ -109,7 +109,7 @@ def rxso3_Ws(x):
     B[condition2] = (theta_c2 - theta_c2.sin()) / (theta2[condition2] * theta_c2)
 
     # condition3
-    C[sigma_larger] = (scale[sigma_larger] - 1.0) / sigma[sigma_larger]
+    C[sigma_larger] = torch.expm1(sigma[sigma_larger]) / sigma[sigma_larger]
     sigma_c3, scale_c3, sigma2_c3 = sigma[condition3], scale[condition3], sigma2[condition3]
     A[condition3] = (1.0 + (sigma_c3 - 1.0) * scale_c3) / sigma2_c3
     B[condition3] = (0.5 * sigma2_c3 * scale_c3 + scale_c3 - 1.0 - sigma2_c3 * scale_c3) / (sigma2_c3 * sigma_c3)
@@ -120,6 +120,14 @@ def rxso3_Ws(x):
     a_c4, b_c4, c_c4 = scale_c4 * theta_c4.sin(), scale_c4 * theta_c4.cos(), (theta2_c4 + sigma2_c4)
     A[condition4] = (a_c4 * sigma_c4 + (1 - b_c4) * theta_c4) / (theta_c4 * c_c4)
     B[condition4] = (C[condition4] - ((b_c4 - 1) * sigma_c4 + a_c4 * theta_c4) / c_c4) * theta2_inv_c4
+
+    # series expansion where the closed forms above cancel (sigma and theta both small)
+    small = (sigma2 + theta2) < 1e-6
+    sigma_s, sigma2_s, theta2_s = sigma[small], sigma2[small], theta2[small]
+    A[small] = 0.5 + sigma_s / 3.0 + (3.0 * sigma2_s - theta2_s) / 24.0 \
+               + sigma_s * (sigma2_s - theta2_s) / 30.0
+    B[small] = 1.0 / 6.0 + sigma_s / 8.0 + (6.0 * sigma2_s - theta2_s) / 120.0 \
+               + sigma_s * (2.0 * sigma2_s - theta2_s) / 144.0
 
     K = vec2skew(rotation)
     A = A.unsqueeze(-1).unsqueeze(-1)
